@@ -19,9 +19,17 @@ From Kyro Require Import Model.Amap Model.Conc09 Proofs.Conc09Lemmas Proofs.Conc
 Import ListNotations.
 Open Scope N_scope.
 
+(* KNOWN CLASS (finding C09-snapshot-file-id-collision).  `distinct_ids c := forall n, c_clock c n = n`
+   says that every file creation gets its own id.  The code names files after the microsecond clock
+   (HnswBackend::file_id) without a tie-break; when two create_snapshot calls draw the same id the
+   property FAILS — in the model (C09_same_file_id_refuted below, by evaluation) and on the real engine
+   (driver probe `c09 --probe-fileid`, strict recovery refuses: "loaded state covers WAL sequence a but
+   the manifest committed a snapshot at sequence b").  All theorems are stated for ~Known = distinct_ids. *)
+
 (* Once every call has returned, a (strict) restart from the directory yields exactly the live
    collection — nothing lost, nothing resurrected, no stale value. *)
 Theorem C09_quiescent_exact : forall (c : cfg) (sched : list ev) (st : state),
+  distinct_ids c ->
   crun c init sched = Some st -> all_done st = true ->
   recover (disk_of st) = Some (st_store st).
 Proof. exact quiescent_exact. Qed.
@@ -30,6 +38,7 @@ Proof. exact quiescent_exact. Qed.
    yields the live collection plus exactly the operations already appended to the WAL by the writer
    that holds the write gate and not yet applied in memory — in order. *)
 Theorem C09_recover_any_time : forall (c : cfg) (sched : list ev) (st : state),
+  distinct_ids c ->
   crun c init sched = Some st ->
   recover (disk_of st) = Some (apply_entries (st_store st) (in_flight st)).
 Proof. exact recover_any_time. Qed.
@@ -37,6 +46,7 @@ Proof. exact recover_any_time. Qed.
 (* A stale snapshot never replaces a newer one: along every run the sequence number the manifest's
    snapshot pointer stands for never decreases ... *)
 Theorem C09_stale_snapshot_never_wins : forall (c : cfg) (sched0 : list ev) (st : state) (sched : list ev) (st' : state),
+  distinct_ids c ->
   crun c init sched0 = Some st -> crun c st sched = Some st' ->
   ptr_seq (st_man st) <= ptr_seq (st_man st').
 Proof. exact stale_never_wins. Qed.
@@ -53,6 +63,7 @@ Proof. exact stale_skips. Qed.
    snapshot and skips the covered ones; in every reachable state the listed entries carry strictly
    increasing sequence numbers, so no logged operation is present (hence applied) twice. *)
 Theorem C09_no_duplicate_effect : forall (c : cfg) (sched : list ev) (st : state),
+  distinct_ids c ->
   crun c init sched = Some st ->
   exists (last : N) (docs : store) (es : list entry),
     read_segs (st_files st) (m_segs (st_man st)) = Some es /\
@@ -67,7 +78,9 @@ Proof. exact no_duplicate_effect. Qed.
    is compacted away.  The schedule is a run of the semantics, ends quiescent, and the restart
    yields the live collection {8}.                                                                  *)
 (* ---------------------------------------------------------------------------------------------- *)
-Definition ex_cfg : cfg := mkCfg 2 6 100 (fun _ => 1).
+Definition ex_cfg : cfg := mkCfg 2 6 100 (fun _ => 1) (fun n => n).
+Example ex_cfg_distinct : distinct_ids ex_cfg.
+Proof. intro n. reflexivity. Qed.
 Definition ex_sched : list ev :=
   [EvCall 1 (CIns 7 1 1); EvStep 1; EvStep 1; EvStep 1; EvStep 1; EvSnap 3; EvCall 2 (CIns 8 2 2);
    EvStep 2; EvStep 1; EvStep 1; EvStep 1; EvStep 1; EvStep 1; EvStep 2; EvStep 2; EvStep 2; EvStep 2;
@@ -92,8 +105,37 @@ Example C09_capture_excluded :
              recover (disk_of st) = Some [(7, (1, 1))].
 Proof. eexists. split; [vm_compute; reflexivity|]. vm_compute. repeat split. Qed.
 
+(* ---------------------------------------------------------------------------------------------- *)
+(* The known class refutes the property: two snapshots (thread 1 captured at seq 1, thread 2 at seq 2,
+   one write in between, rotation after every frame) whose files get the SAME id 4.  Thread 2 saves
+   first, thread 1's save replaces the content (last = 1), thread 1 commits (4, 1), thread 2 is not
+   stale and commits (4, 2) and compacts against 2.  All calls return; the directory names a snapshot
+   at sequence 2 whose file holds sequence 1, the segment with entry 2 is gone: strict recovery
+   refuses, the live collection {1, 2} is not recoverable.                                          *)
+(* ---------------------------------------------------------------------------------------------- *)
+Definition bad_cfg : cfg := mkCfg 0 1 100 (fun _ => 1) (fun n => if n =? 5 then 4 else n).
+Definition bad_sched : list ev :=
+  [EvCall 3 (CIns 1 1 1); EvStep 3; EvStep 3; EvStep 3; EvStep 3; EvStep 3; EvStep 3; EvStep 3; EvStep 3;
+   EvStep 3; EvStep 3; EvSnap 1; EvStep 1; EvCall 3 (CIns 2 2 2); EvStep 3; EvStep 3; EvStep 3; EvStep 3;
+   EvStep 3; EvStep 3; EvStep 3; EvStep 3; EvStep 3; EvStep 3; EvSnap 2; EvStep 2; EvStep 2; EvStep 1;
+   EvStep 1; EvStep 1; EvStep 1; EvStep 1; EvStep 1; EvStep 1; EvStep 2; EvStep 2; EvStep 2; EvStep 2;
+   EvStep 2; EvStep 2]%nat.
+
+Theorem C09_same_file_id_refuted :
+  exists (c : cfg) (sched : list ev) (st : state),
+    ~ distinct_ids c /\ crun c init sched = Some st /\ all_done st = true /\
+    st_store st = [(1, (1, 1)); (2, (2, 2))] /\
+    st_man st = mkMan (Some (4, 2)) [3] /\ st_snaps st = [(4, (1, [(1, (1, 1))]))] /\
+    recover (disk_of st) = None.
+Proof.
+  exists bad_cfg, bad_sched. eexists. split.
+  - intro H. specialize (H 5). vm_compute in H. discriminate.
+  - split; [vm_compute; reflexivity|]. vm_compute. repeat split.
+Qed.
+
 Print Assumptions C09_quiescent_exact.
 Print Assumptions C09_recover_any_time.
 Print Assumptions C09_stale_snapshot_never_wins.
 Print Assumptions C09_stale_snapshot_skips.
 Print Assumptions C09_no_duplicate_effect.
+Print Assumptions C09_same_file_id_refuted.
